@@ -24,9 +24,12 @@ TOL = c07.TOL
 
 def call_period(c):
     """number of distinct point sets / batches a training condition cycles through (1 = call-invariant)"""
-    if c["kind"] in ("pinn", "mean") and not c.get("static") and not c.get("lib_sampler"):
+    if c["kind"] in ("pinn", "mean", "ritz", "single", "hpm_sampler", "integro") and not c.get("static") and not c.get("lib_sampler"):
         return len(c["sets"])
-    if c["kind"] == "data" and not c.get("full"):
+    if c["kind"] == "deeponet_data":
+        # DeepONetDataset.__len__: one joint batch index, lcm of the two wrap-around periods
+        return math.lcm(c["nf"] // math.gcd(c["nf"], c["bB"]), c["nt"] // math.gcd(c["nt"], c["bT"]))
+    if c["kind"] in ("data", "hpm_data") and not c.get("full"):
         return math.ceil(len(c["x"]) / c["bs"])
     return 1
 
